@@ -877,6 +877,15 @@ fn sender_body(c: &mut Ctx, su: &Setup, thorough: bool) -> Result<(), Violation>
         return Ok(());
     }
     let iss = c.iss_v.unwrap();
+    // runs whose initial sequence number lies shortly before the wrap: half of the time the stream is as long as it
+    // takes for SND.NXT to come to rest on exactly 0 (a keep-alive sent then repeats sequence number 0xffffffff)
+    let to_zero = 0u32.wrapping_sub(iss.wrapping_add(1)) as u64;
+    let total = if (1..=100_000).contains(&to_zero) && c.tape.draw(2) == 0 {
+        c.stats.inc("c05.stream-ends-at-sequence-number-zero");
+        to_zero
+    } else {
+        total
+    };
     let mut written: u64 = 0;
     let mut closed = false;
     // what the victim has been told, in order (all our ACKs are acceptable and delivered in order)
